@@ -48,8 +48,17 @@ if not hasattr(D, "async_execute"):
     MISSING.append("dag.async_execute")
 
 
-ENTER_TIMEOUT = float(os.environ.get("VERIF_ENTER_TIMEOUT", "2.0"))
-RUN_TIMEOUT = float(os.environ.get("VERIF_RUN_TIMEOUT", "8.0"))
+def load_factor():
+    """deadlines stretch with the machine's load (a worker thread that is not even scheduled within 2 s is no finding)"""
+    try:
+        return min(8.0, max(1.0, 1.5 * os.getloadavg()[0] / (os.cpu_count() or 1)))
+    except (OSError, AttributeError):
+        return 1.0
+
+
+LOAD = load_factor()
+ENTER_TIMEOUT = float(os.environ.get("VERIF_ENTER_TIMEOUT", "2.0")) * LOAD
+RUN_TIMEOUT = float(os.environ.get("VERIF_RUN_TIMEOUT", "8.0")) * LOAD
 
 
 MAX_EVENTS = int(os.environ.get("VERIF_MAX_EVENTS", "6000"))
@@ -243,7 +252,8 @@ if not MISSING:
             while not (set(ids) - ctl.released_early) <= ctl.entered:
                 time.sleep(0.0002)
                 if time.time() - t0 > ENTER_TIMEOUT:
-                    ctl.give_up("in-flight thread nodes never entered: %r" % (sorted(set(ids) - ctl.entered),))
+                    if not ((set(ids) - ctl.released_early) <= ctl.entered):
+                        ctl.give_up("in-flight thread nodes never entered: %r" % (sorted(set(ids) - ctl.entered),))
                     break
             rel = ctl.pick_release(ids, return_when)
             for r in rel:
@@ -268,7 +278,8 @@ if not MISSING:
             while not set(ids) <= ctl.entered:
                 await asyncio.sleep(0.0002)
                 if time.time() - t0 > ENTER_TIMEOUT:
-                    ctl.give_up("in-flight async nodes never entered: %r" % (sorted(set(ids) - ctl.entered),))
+                    if not (set(ids) <= ctl.entered):
+                        ctl.give_up("in-flight async nodes never entered: %r" % (sorted(set(ids) - ctl.entered),))
                     break
             rel = ctl.pick_release(ids, return_when)
             for r in rel:
